@@ -86,6 +86,7 @@ func (t *Tree) parseUntilTag(start Pos, names ...string) (*BodyNode, error) {
 			return n, newUnexpectedEOFError(tok)
 
 		case tokenTagOpen:
+			mark := len(t.read)
 			t.next()
 			tok, err := t.expect(tokenName)
 			if err != nil {
@@ -94,7 +95,11 @@ func (t *Tree) parseUntilTag(start Pos, names ...string) (*BodyNode, error) {
 			if contains(names, tok.value) {
 				return n, nil
 			}
-			t.backup3()
+			// Not one of the expected tags: push back everything read since the opening
+			// delimiter (there may or may not be whitespace before the tag name).
+			for len(t.read) > mark {
+				t.backup()
+			}
 			o, err := t.parse()
 			if err != nil {
 				return n, err
